@@ -149,6 +149,8 @@ pub enum SetOp {
 pub enum Op {
     Map(usize, MapOp),
     Set(usize, SetOp),
+    /// a `Map` API operation on a set register seen as the `Map<Key, (), N>` it wraps
+    UMap(usize, MapOp),
     Inject(u64),
     End,
 }
@@ -397,6 +399,14 @@ pub fn op(toks: &[&str]) -> Option<Op> {
     match toks {
         ["end"] => Some(Op::End),
         ["inject", j] => Some(Op::Inject(j.parse().ok()?)),
+        [r, rest @ ..] if r.starts_with('u') => {
+            let i = match *r {
+                "u0" => 0,
+                "u1" => 1,
+                _ => return None,
+            };
+            Some(Op::UMap(i, map_op(rest)?))
+        }
         [r, rest @ ..] => {
             let (is_map, i) = reg(r)?;
             if is_map {
